@@ -160,6 +160,12 @@ def float_witnesses(c):
     return w
 
 
+def stacked(m, n):
+    """Time-independent (2-D) matrices as the per-step stack the model takes."""
+    m = np.array(m, dtype=np.float64)
+    return np.broadcast_to(m, (n, 2, 2)) if m.ndim == 2 else m
+
+
 def scale_of(*arrs):
     return max([1.0] + [float(np.max(np.abs(a))) for a in arrs if np.size(a)])
 
@@ -193,9 +199,10 @@ def checks_for(c, o):
             out.append(("iwp-marginals", "chk_iwp_marginals %s %s %s %s %s" % (tol2, q(c["par"]["sigma"]), q(c["par"]["asperity"]), ql(w["dt"]), qpll(xcols))))
     elif kind == "gmp2":
         tol = q(TOL * scale_of(res, A))
-        F = np.array(c["par"]["drift"])
-        G = np.array(c["par"]["diffamp"])
+        F, G = stacked(c["par"]["drift"], n), stacked(c["par"]["diffamp"], n)
         out.append(("gmp2", "chk_gmp2 %s %s %s %s %s %s" % (tol, qml(F), qml(G), qpl(c["xi"]), qp(c["x0"]), qpl(res))))
+        cols = [[(A[k, 0, j], A[k, 1, j]) for j in range(A.shape[2])] for k in range(n + 1)]
+        out.append(("gmp2-cols", "chk_gmp2_cols %s %s %s %s" % (tol, qml(F), qml(G), qpll(cols))))
     return out
 
 
@@ -313,6 +320,32 @@ def direct_failures(c, o=None):
         g = np.asarray(jfn("discrete_gauss_markov_process")(xi, np.array(c["x0"], dtype=np.float64), F, G))
         if not np.allclose(g, res, rtol=0, atol=1e-10 * sc):
             fail("generic-agrees", "discrete_gauss_markov_process(F, G) differs from integrated_wiener_process")
+    if kind == "gmp2":
+        # documented: res_{i+1} = drift_i @ res_i + diffamp_i @ xi_i, transition covariance diffamp_i @ diffamp_i.T
+        F, G = stacked(c["par"]["drift"], n), stacked(c["par"]["diffamp"], n)
+        P = [np.zeros((2, 2))]
+        for k in range(n):
+            P.append(F[k] @ P[-1] @ F[k].T + G[k] @ G[k].T)
+        ref = np.zeros((n + 1, 2, n + 1, 2))
+        for i in range(n + 1):
+            Phi = np.eye(2)
+            for j in range(i, n + 1):
+                if j > i:
+                    Phi = F[j - 1] @ Phi
+                ref[j, :, i, :] = Phi @ P[i]
+                ref[i, :, j, :] = (Phi @ P[i]).T
+        ref = ref.reshape(2 * (n + 1), 2 * (n + 1))
+        cov = _cov_from_A(A[:, :, 2:].reshape(2 * (n + 1), -1))
+        if not np.allclose(cov, ref, rtol=0, atol=1e-10 * scale_of(ref)):
+            i, j = np.unravel_index(np.argmax(np.abs(cov - ref)), cov.shape)
+            fail("gmp2-cov", "generic generator: covariance entry (%d,%d) = %r, F P F^T + G G^T recursion gives %r" % (i, j, float(cov[i, j]), float(ref[i, j])))
+    if kind == "iwp" and len(set(w["dt"].tolist())) == 1 and np.ndim(c["par"]["sigma"]) == 0 and np.ndim(c["par"]["asperity"]) == 0:
+        # uniform grid: the generic generator with time-independent 2-D matrices agrees as well
+        F2 = np.array([[1.0, w["dt"][0]], [0.0, 1.0]])
+        G2 = np.array([[w["sigma"][0] * w["s"][0] * w["r"][0], w["sigma"][0] * w["s"][0] * w["dt"][0] / 2], [0.0, w["sigma"][0] * w["s"][0]]])
+        g = np.asarray(jfn("discrete_gauss_markov_process")(xi, np.array(c["x0"], dtype=np.float64), F2, G2))
+        if not np.allclose(g, res, rtol=0, atol=1e-10 * sc):
+            fail("generic-agrees", "discrete_gauss_markov_process with time-independent 2-D (F, G) differs from integrated_wiener_process on a uniform grid")
     if kind in ("wiener", "ou", "iwp"):
         # refinement of the grid does not change the covariance at the original grid points
         c2 = refine(c)
@@ -370,21 +403,37 @@ def model_class_failures():
 # --------------------------------------------------------------------------------------------------
 
 def gen_cases(ctx):
+    """Steered generation: per process kind the parameter forms cycle deterministically through
+    scalar / per-interval SEQUENCE (with at least two different entries) so that every run has, for
+    every process, time-varying sigma / gamma / asperity on >= 2 steps, uniform and non-uniform
+    grids, and for the generic generator constant 2-D as well as stacked 3-D non-symmetric matrices."""
     rng = ctx.rng(29)
     cases = [c["case"] for c in ctx.corpus() if isinstance(c.get("case"), dict)]
-    nper = 6 if ctx.quick else 40
+    nper = 8 if ctx.quick else 40
 
-    def dts(n):
-        m = rng.integers(1, 13, size=n) if rng.random() < 0.75 else np.full(n, rng.integers(1, 13))
+    def dts(n, uniform):
+        m = np.full(n, rng.integers(1, 13)) if uniform else rng.integers(1, 13, size=n)
+        if not uniform and n >= 2 and len(set(m.tolist())) == 1:
+            m[0] = m[0] % 12 + 1
         return ((m / 8.0) ** 2).tolist()
 
-    def maybe_seq(n, lo, hi, den):
-        if rng.random() < 0.5:
+    def par(n, seq, lo, hi, den):
+        if not seq:
             return float(rng.integers(lo, hi)) / den
-        return (rng.integers(lo, hi, size=n) / den).tolist()
+        v = rng.integers(lo, hi, size=n)
+        if n >= 2 and len(set(v.tolist())) == 1:
+            v[-1] = lo + (v[-1] - lo + 1) % (hi - lo)
+        return (v / den).tolist()
+
+    def nonsym(shape):
+        m = rng.integers(-4, 5, size=shape)
+        m[..., 0, 1] = m[..., 1, 0] + 1 + rng.integers(0, 3, size=m[..., 0, 1].shape)      # never symmetric
+        return (m / 4.0).tolist()
+    ns = (2, 3, 5, 8, 1)
     for kind in ("wiener", "gmp1", "ou", "iwp", "gmp2"):
         for i in range(nper):
-            n = int(NS[i % len(NS)])
+            n = int(ns[i % len(ns)])
+            b0, b1, b2 = bool(i & 1), bool(i & 2), bool(i & 4)
             c = {"kind": kind, "n": n}
             if kind in ("iwp", "gmp2"):
                 c["xi"] = (rng.integers(-4, 5, size=(n, 2)) / 2.0).tolist()
@@ -393,17 +442,18 @@ def gen_cases(ctx):
                 c["xi"] = (rng.integers(-4, 5, size=n) / 2.0).tolist()
                 c["x0"] = float(rng.integers(-4, 5)) / 4.0
             if kind == "wiener":
-                c["par"] = {"sigma": maybe_seq(n, 1, 9, 4.0), "dt": dts(n)}
+                c["par"] = {"sigma": par(n, not b0, 1, 9, 4.0), "dt": dts(n, b1)}
             elif kind == "gmp1":
-                c["par"] = {"drift": maybe_seq(n, -4, 5, 4.0), "amp": maybe_seq(n, -4, 9, 4.0)}
+                c["par"] = {"drift": par(n, not b0, -4, 5, 4.0), "amp": par(n, not b1, -4, 9, 4.0)}
             elif kind == "ou":
-                c["par"] = {"sigma": maybe_seq(n, 1, 9, 4.0), "gamma": maybe_seq(n, 1, 17, 8.0), "dt": dts(n)}
+                c["par"] = {"sigma": par(n, not b0, 1, 9, 4.0), "gamma": par(n, not b1, 1, 17, 8.0), "dt": dts(n, b2)}
             elif kind == "iwp":
-                asp = [0.0, 0.0, 0.125, 0.3][int(rng.integers(0, 4))] if rng.random() < 0.6 else (rng.integers(0, 9, size=n) / 16.0).tolist()
-                c["par"] = {"sigma": maybe_seq(n, 1, 9, 4.0), "dt": dts(n), "asperity": asp}
+                asp = par(n, True, 0, 9, 16.0) if b1 else [0.0, 0.125, 0.3, 0.0][i % 4]
+                c["par"] = {"sigma": par(n, not b0, 1, 9, 4.0), "dt": dts(n, b2), "asperity": asp}
             else:
-                c["par"] = {"drift": (rng.integers(-4, 5, size=(n, 2, 2)) / 4.0).tolist(),
-                            "diffamp": (rng.integers(-4, 5, size=(n, 2, 2)) / 4.0).tolist()}
+                # constant 2-D (time-independent) or stacked 3-D matrices, all four combinations
+                c["par"] = {"drift": nonsym((2, 2)) if b0 else nonsym((n, 2, 2)),
+                            "diffamp": nonsym((2, 2)) if not b1 else nonsym((n, 2, 2))}
             cases.append(c)
     return cases
 
@@ -487,8 +537,6 @@ class C29(C.Check):
         order = [c for c in hints] + [c for c in self.cases if c not in hints]
         obs = {json.dumps(c, sort_keys=True): o for c, o in zip(self.cases, self.obs)}
         for c in order:
-            if c["kind"] in ("gmp1", "gmp2") and budget == 1 and n > 40:
-                continue
             try:
                 fs = direct_failures(c, obs.get(json.dumps(c, sort_keys=True)))
             except Exception as e:
